@@ -44,6 +44,13 @@ type Term struct { // uninterpreted application
 	Args []Val
 }
 type Neg struct{ X Val }
+
+// ElemPtr / Elem: address and value of element Index of an unmodelled sequence Base.
+type ElemPtr struct{ Base, Index Val }
+type Elem struct{ Base, Index Val }
+
+func (e ElemPtr) String() string { return fmt.Sprintf("&%v[%v]", e.Base, e.Index) }
+func (e Elem) String() string    { return fmt.Sprintf("%v[%v]", e.Base, e.Index) }
 type Zero struct{ T types.Type } // zero value of some type we do not model further
 
 func (c Const) String() string {
@@ -302,6 +309,8 @@ func (ev *Evaluator) val(env map[ssa.Value]Val, v ssa.Value) (Val, error) {
 
 func (ev *Evaluator) load(a Val, pos token.Pos) (Val, error) {
 	switch p := a.(type) {
+	case ElemPtr:
+		return Elem{Base: p.Base, Index: p.Index}, nil
 	case Ptr:
 		if p.Cell == nil {
 			return nil, &Undecided{pos, "nil dereference"}
@@ -551,7 +560,7 @@ func (ev *Evaluator) instr(env map[ssa.Value]Val, in ssa.Value) (Val, error) {
 				return Ptr{Cell: arr.Elems[i]}, nil
 			}
 		}
-		return Sym{fmt.Sprintf("&%v[%v]", x, idx)}, nil
+		return ElemPtr{Base: x, Index: idx}, nil
 	case *ssa.Call:
 		return ev.call(env, in)
 	}
